@@ -126,7 +126,7 @@ func (runInfo *runInfoStruct) invokeLetMemberExpr(expr *ast.MemberExpr) {
 			runInfo.rv = item
 			runInfo.expr = expr.Expr
 			runInfo.invokeLetExpr()
-			runInfo.rv = item.MapIndex(reflect.ValueOf(expr.Name))
+			runInfo.rv = value
 			return
 		}
 		runInfo.rv.SetMapIndex(reflect.ValueOf(expr.Name), value)
@@ -261,7 +261,6 @@ func (runInfo *runInfoStruct) invokeLetItemMap(expr *ast.ItemExpr, slot reflect.
 		// make new map
 		item = reflect.MakeMap(item.Type())
 		item.SetMapIndex(runInfo.rv, value)
-		mapIndex := runInfo.rv
 		// assign new map
 		if slot.CanSet() && item.Type().AssignableTo(slot.Type()) {
 			slot.Set(item)
@@ -270,7 +269,8 @@ func (runInfo *runInfoStruct) invokeLetItemMap(expr *ast.ItemExpr, slot reflect.
 			runInfo.expr = expr.Item
 			runInfo.invokeLetExpr()
 		}
-		runInfo.rv = item.MapIndex(mapIndex)
+		// the stored value (a NaN key is never found again: MapIndex would give the zero Value)
+		runInfo.rv = value
 		return
 	}
 	item.SetMapIndex(runInfo.rv, value)
